@@ -144,11 +144,12 @@ def _yaml_data(p):
 _CAT_CACHE = {}
 
 
-def schema_cases():
-    """catalog -> TLC (SettingSchema_cat) -> Lib"""
+def schema_cases(cat=None):
+    """catalog -> TLC (SettingSchema_cat) -> Lib   (the catalog must be taken in the main thread: importing armi installs
+    a signal handler)"""
     if "lib" in _CAT_CACHE:
         return _CAT_CACHE["lib"], _CAT_CACHE["res"], _CAT_CACHE["skipped"]
-    entries, skipped = gs.catalog()
+    entries, skipped = cat or gs.catalog()
     wd = common.workdir("c17cat")
     fn = os.path.join(wd, "catalog.json")
     with open(fn, "w") as f:
@@ -1253,7 +1254,7 @@ def run(rep, tier, seed):
     # 1. TLC in the background while the real code is exercised: the emission runs and the catalog run (one worker each),
     #    and the exhaustive runs one after the other (four workers)
     pool = ThreadPoolExecutor(max_workers=5)
-    f_cat = pool.submit(schema_cases)
+    f_cat = pool.submit(schema_cases, gs.catalog())
     f_io = pool.submit(emit_graph, "SettingsCase_emit_io%s.cfg" % sfx)
     f_copy = pool.submit(emit_graph, "SettingsCase_emit_copy%s.cfg" % sfx)
 
